@@ -24,6 +24,18 @@
  *                                               4 main: copy(<src's Thread object>) while src waits, call
  *                                             (alone-runs of j use an ordinary Thread; a clone first removes the
  *                                             user keys it inherited in its own copy of the thread-local table)
+ *                                               5 src: new(Thread, fn) (managed by src's collector), hand over the gifts
+ *                                                 of j, collect, call, join at once
+ *                g <j> <ngc> <churn> <n> (<key> <id>)*n   gifts: before workload j is started its parent stores n fresh
+ *                                             collector-managed objects, referenced from nowhere else, in the
+ *                                             thread-local storage of the not-yet-started (managed) Thread object:
+ *                                             set(thread, "g<key>", obj); then the parent clears its stack, forces ngc
+ *                                             collections and allocates <churn> garbage objects; then call().  The
+ *                                             child checks every gift (present, alive, right identity) before and
+ *                                             after its workload and mixes the ids into its digest.  Parent = main
+ *                                             (also in the alone-run) or the worker of an 's ... 5' line.
+ *                r <j> <i>                    workload j runs, after everything else was joined, on the finished
+ *                                             Thread object of workload i (call() again), gifts handed over before
  * Output lines:  thr i sdig sxdig cdig cxdig allocs fins sbad=.. cbad=..
  *                lock m counter expect flagseen tryfail
  *                join k ok|<message>
@@ -61,12 +73,14 @@ struct op { int code; long a[12]; int na; struct node* tree; };
 struct yield { int at, kind; long count; };
 struct clonespec { int j, mode, at; };
 struct prog { struct op* ops; int nops, cops; struct yield* ys; int nys, cys; long nalloc;
-              struct clonespec cl[8]; int ncl; int started_by; /* -1 = main starts it normally */ int clone_mode; };
+              struct clonespec cl[8]; int ncl; int started_by; /* -1 = main starts it normally */ int clone_mode;
+              int ngift, gkey[4]; long gid[4]; int g_ngc; long g_churn; int restart_of; /* -1 = no */ };
 
 enum { O_CN, O_CP, O_CR, O_CG, O_CS, O_CD, O_CC, O_CX, O_OB, O_CH, O_OW, O_OD, O_GC, O_EX,
        O_TS, O_TG, O_TR, O_LK, O_JW, O_SB };
 
 struct jobspec { long len, seed, dkind, dcount, mid, nint, slen, nalloc; };
+struct giftrec { int tid; volatile int state; long id; };   /* never freed: the object may be finalised much later */
 
 /* ---- per-run, per-thread state ---------------------------------------------------------- */
 struct ledger { int tid; long cap, next; unsigned char* st; atomic_long foreign; long dbl, fins, garbage; };
@@ -90,6 +104,7 @@ struct tctx {
   int concurrent;              /* this run is part of the concurrent phase (clone specs are acted on) */
   int is_clone;
   int cl_done[8]; var cl_thr[8];
+  struct giftrec* grec[4];
 };
 
 static __thread int my_tid = 0;               /* 0 = main thread */
@@ -156,6 +171,67 @@ static void Obj_Del(var self) {
   if (cur and my_tid is L->tid) { ev_add(cur, EV_GC); }
 }
 static var Obj = Cello(Obj, Instance(New, Obj_New, Obj_Del));
+
+/* ---- gifts: objects a parent stores in the thread-local storage of a thread it is about to start ---- */
+struct Gift { struct giftrec* rec; int64_t id; int64_t magic; };
+#define GIFT_MAGIC 0x6769667431323334LL
+static void Gift_Del(var self) {
+  struct Gift* g = self;
+  if (g->rec is NULL) { return; }
+  if (my_tid isnt g->rec->tid) { atomic_fetch_add(&g_foreign, 1); }
+  g->rec->state = g->rec->state is 1 ? 2 : 3;
+  g->magic = 0;
+}
+static var Gift = Cello(Gift, Instance(New, NULL, Gift_Del));
+
+static void __attribute__((noinline)) gift_one(var t, struct tctx* cc, int k) {
+  struct giftrec* r = calloc(1, sizeof *r);
+  r->tid = my_tid; r->state = 1; r->id = cc->p->gid[k];
+  cc->grec[k] = r;
+  struct Gift* g = new(Gift);
+  g->rec = r; g->id = r->id; g->magic = GIFT_MAGIC;
+  char kb[16]; snprintf(kb, sizeof kb, "g%d", cc->p->gkey[k]);
+  set(t, $S(kb), g);
+}
+static void __attribute__((noinline)) scrub_stack(void) {
+  volatile char pad[65536];
+  for (size_t i = 0; i < sizeof pad; i++) { pad[i] = 0; }
+}
+static void __attribute__((noinline)) gift_garbage(long n) {
+  for (long i = 0; i < n; i++) { var x = new(Int, $I(i)); (void)x; }
+}
+/* parent side: hand over, forget, collect.  t is collector-managed and reachable from the parent's stack */
+static void parent_prepare(var t, struct tctx* cc) {
+  struct prog* p = cc->p;
+  if (p->ngift is 0) { return; }
+  for (int k = 0; k < p->ngift; k++) { gift_one(t, cc, k); }
+  scrub_stack();
+  for (int n = 0; n < p->g_ngc; n++) { Cello_Verif_GC_Collect(current(GC)); }
+  gift_garbage(p->g_churn);
+  scrub_stack();
+  for (int k = 0; k < p->ngift; k++) {
+    if (cc->grec[k]->state isnt 1) {
+      tbad(cc, "a collection in the parent finalised object %ld stored in the thread-local storage of the thread it was about to start", cc->grec[k]->id);
+    }
+  }
+}
+/* child side */
+static void check_gifts(struct tctx* c, const char* when) {
+  struct prog* p = c->p;
+  for (int k = 0; k < p->ngift; k++) {
+    struct giftrec* r = c->grec[k];
+    if (r is NULL) { tbad(c, "%s: gift %d was never handed over", when, k); continue; }
+    char kb[16]; snprintf(kb, sizeof kb, "g%d", p->gkey[k]);
+    var volatile exc = NULL; var volatile v = NULL;
+    try { v = get(current(Thread), $S(kb)); } catch (e) { exc = e; }
+    if (exc) { tbad(c, "%s: thread-local entry %s stored by the parent is missing (%s)", when, kb, c_str(exc)); continue; }
+    if (r->state isnt 1) { tbad(c, "%s: object %ld stored by the parent in this thread's thread-local storage was finalised", when, r->id); continue; }
+    struct Gift* g = v;
+    if (g is NULL or type_of(g) isnt Gift or g->rec isnt r or g->id isnt r->id or g->magic isnt GIFT_MAGIC) {
+      tbad(c, "%s: thread-local entry %s is not the object the parent stored", when, kb); continue; }
+    mix(&c->dig, 0x6700 + (uint64_t)p->gkey[k]); mix(&c->dig, (uint64_t)r->id);
+  }
+}
 
 /* ---- exception kinds -------------------------------------------------------------------- */
 static var* xkinds[] = { &TypeError, &KeyError, &ValueError, &IOError, &IndexOutOfBoundsError,
@@ -460,6 +536,15 @@ static void do_clones(struct tctx* c, int i) {
       } catch (e) { exc = e; }
       if (exc) { tbad(c, "cloning the running thread with copy/call/join raised %s", c_str(exc)); }
       else if (not cc->done) { tbad(cc, "join returned before the thread function finished"); }
+    } else if (cs->mode is 5) {                  /* this worker is the parent of a fresh managed Thread */
+      try {
+        var t = new(Thread, fn_work);
+        parent_prepare(t, cc);
+        call(t, cc->argref);
+        join(t);
+      } catch (e) { exc = e; }
+      if (exc) { tbad(c, "starting a thread from a worker raised %s", c_str(exc)); }
+      else if (not cc->done) { tbad(cc, "join returned before the thread function finished"); }
     } else {                                     /* the main thread clones this (waiting) worker */
       atomic_store(&g_req[cs->j], 1);
       while (not atomic_load(&g_ack[cs->j])) { sched_yield(); }
@@ -529,7 +614,10 @@ static var work_fn(var args) {
     } catch (e) { exc = e; }
     if (exc) { tbad(c, "removing inherited thread-local entries raised %s", c_str(exc)); }
   }
+  check_gifts(c, "before the workload");
   run_workload(c);
+  my_tid = c->tid;
+  check_gifts(c, "after the workload");
   c->done = 1;
   return NULL;
 }
@@ -613,7 +701,7 @@ static void reset_case(void) {
     for (int k = 0; k < progs[i].nops; k++) { free_node(progs[i].ops[k].tree); }
     free(progs[i].ops); free(progs[i].ys);
     memset(&progs[i], 0, sizeof progs[i]);
-    progs[i].started_by = -1;
+    progs[i].started_by = -1; progs[i].restart_of = -1;
   }
   nmjobs = 0; cfgT = 0; g_nbad = 0;
 }
@@ -683,12 +771,28 @@ int main(int argc, char** argv) {
       }
       else if (strcmp(w[0], "s") is 0 and n >= 5) {
         int j = atoi(w[1]), mode = atoi(w[2]), src = atoi(w[3]), at = atoi(w[4]);
-        if (j < 0 or j >= cfgT or src < 0 or src >= cfgT or j is src or mode < 1 or mode > 4 or at < 0) { harness_bug("s line"); }
+        if (j < 0 or j >= cfgT or src < 0 or src >= cfgT or j is src or mode < 1 or mode > 5 or at < 0) { harness_bug("s line"); }
         if (cfg_main and (j is 0 or src is 0)) { harness_bug("s line: workload 0 is the main thread's"); }
         if (progs[src].ncl >= 8) { harness_bug("too many clones of one worker"); }
         progs[j].started_by = src; progs[j].clone_mode = mode;
         struct clonespec* cs = &progs[src].cl[progs[src].ncl++];
         cs->j = j; cs->mode = mode; cs->at = at;
+      }
+      else if (strcmp(w[0], "g") is 0 and n >= 5) {
+        int j = atoi(w[1]); if (j < 0 or j >= cfgT) { harness_bug("g line"); }
+        struct prog* p = &progs[j];
+        p->g_ngc = atoi(w[2]); p->g_churn = strtol(w[3], NULL, 10); p->ngift = atoi(w[4]);
+        if (p->ngift < 1 or p->ngift > 4 or n < 5 + 2 * p->ngift or p->g_ngc < 0 or p->g_ngc > 8 or p->g_churn < 0 or p->g_churn > 100000) { harness_bug("g line values"); }
+        for (int k = 0; k < p->ngift; k++) {
+          p->gkey[k] = atoi(w[5 + 2*k]); p->gid[k] = strtol(w[6 + 2*k], NULL, 10);
+          if (p->gkey[k] < 0 or p->gkey[k] > 9) { harness_bug("g key"); }
+          for (int q = 0; q < k; q++) { if (p->gkey[q] is p->gkey[k]) { harness_bug("g key repeated"); } }
+        }
+      }
+      else if (strcmp(w[0], "r") is 0 and n >= 3) {
+        int j = atoi(w[1]), i = atoi(w[2]);
+        if (j < 0 or j >= cfgT or i < 0 or i >= cfgT or i is j) { harness_bug("r line"); }
+        progs[j].restart_of = i;
       }
       else { harness_bug("unknown line"); }
       continue;
@@ -710,13 +814,14 @@ int main(int argc, char** argv) {
       struct tctx* c = solo[i] = mkctx(i, on_main, 0);
       if (on_main) { run_workload(c); c->done = 1; }
       else {
-        var t = cfg_gcthr ? (var)new(Thread, fn_work) : (var)new_raw(Thread, fn_work);
+        bool managed = cfg_gcthr or progs[i].ngift > 0;
+        var t = managed ? (var)new(Thread, fn_work) : (var)new_raw(Thread, fn_work);
         thr[0] = t;
         var volatile exc = NULL;
-        try { call(t, c->argref); join(t); } catch (e) { exc = e; }
+        try { parent_prepare(t, c); call(t, c->argref); join(t); } catch (e) { exc = e; }
         if (exc) { printf("HARNESS-BUG thread start/join raised %s\n", c_str(exc)); printf("done\n"); fflush(stdout); _exit(3); }
         if (not c->done) { tbad(c, "join returned before the thread function finished"); failed = true; }
-        else if (not cfg_gcthr) { del_raw(t); }
+        else if (not managed) { del_raw(t); }
         thr[0] = NULL;
       }
       if (failed) { break; }
@@ -732,23 +837,37 @@ int main(int argc, char** argv) {
       reset_locks();
       atomic_store(&g_ops, 0);
       atomic_store(&g_go, cfg_barrier ? 0 : 1);
-      int nmode4 = 0, pending = 0;
+      int nmode4 = 0, pending = 0, nrestart = 0, ngifted_by_main = 0; bool managed[MAXT];
       for (int i = 0; i < T; i++) {
         bool cl = progs[i].started_by >= 0;
         conc[i] = mkctx(i, cfg_main and i is 0, cl ? 0 : cfg_barrier);
         conc[i]->concurrent = 1; conc[i]->is_clone = cl;
         atomic_store(&g_req[i], 0); atomic_store(&g_ack[i], 0);
         if (cl and progs[progs[i].started_by].started_by >= 0) { harness_bug("clone of a clone"); }
-        if (cl and progs[i].clone_mode >= 3) { pending++; }
+        if (cl and (progs[i].clone_mode is 3 or progs[i].clone_mode is 4)) { pending++; }
+        if (progs[i].restart_of >= 0) {
+          int o = progs[i].restart_of;
+          if (cl or progs[o].started_by >= 0 or progs[o].restart_of >= 0 or (cfg_main and o is 0)) { harness_bug("restart of a thread main did not start"); }
+          for (int q = 0; q < i; q++) { if (progs[q].restart_of is o) { harness_bug("two restarts of one thread"); } }
+          conc[i]->barrier = 0; nrestart++;
+        }
+        if (not cl and progs[i].ngift and not (cfg_main and i is 0)) { ngifted_by_main++; }
         if (cl and progs[i].clone_mode is 4) { nmode4++; }
       }
       /* copy() in main registers the clone with main's collector: main must not collect while it runs */
       if (nmode4 and (nmode4 > 1 or cfg_main or cfg_gcthr)) { harness_bug("mode 4 clone needs main=0 gcthr=0 and is allowed once"); }
+      /* managed Thread objects that run while main could collect = the known finding: main must stay idle */
+      if ((ngifted_by_main or nrestart) and (cfg_main or nmode4)) { harness_bug("gifts/restarts by main need main=0 and no mode 4 clone"); }
       g_conc = conc;
       int first = cfg_main ? 1 : 0;
-      #define NORMAL(i) (progs[i].started_by < 0)
-      #define MAINCL(i) (progs[i].started_by >= 0 and progs[i].clone_mode >= 3)
-      for (int i = first; i < T; i++) { if (NORMAL(i)) { thr[i] = cfg_gcthr ? (var)new(Thread, fn_work) : (var)new_raw(Thread, fn_work); } }
+      #define NORMAL(i) (progs[i].started_by < 0 and progs[i].restart_of < 0)
+      #define MAINCL(i) (progs[i].started_by >= 0 and (progs[i].clone_mode is 3 or progs[i].clone_mode is 4))
+      #define RESTART(i) (progs[i].restart_of >= 0)
+      for (int i = 0; i < T; i++) { managed[i] = cfg_gcthr or progs[i].ngift > 0; }
+      for (int i = first; i < T; i++) { if (RESTART(i)) { managed[progs[i].restart_of] = true; } }
+      for (int i = first; i < T; i++) { if (NORMAL(i)) { thr[i] = managed[i] ? (var)new(Thread, fn_work) : (var)new_raw(Thread, fn_work); } }
+      /* gifts: all handed over, forgotten and collected over before any thread runs */
+      for (int i = first; i < T; i++) { if (NORMAL(i)) { parent_prepare(thr[i], conc[i]); } }
       var volatile exc = NULL;
       try { for (int i = first; i < T; i++) { if (NORMAL(i)) { call(thr[i], conc[i]->argref); } } } catch (e) { exc = e; }
       if (exc) { printf("HARNESS-BUG thread start raised %s\n", c_str(exc)); printf("done\n"); fflush(stdout); _exit(3); }
@@ -787,17 +906,32 @@ int main(int argc, char** argv) {
         }
       }
       for (int i = first; i < T; i++) {
-        if (not conc[i]->done) { tbad(conc[i], "join returned before the thread function finished (or the clone was never started)"); failed = true; }
+        if (not RESTART(i) and not conc[i]->done) { tbad(conc[i], "join returned before the thread function finished (or the clone was never started)"); failed = true; }
+      }
+      /* second wave: finished Thread objects are given gifts and started again; nothing else runs */
+      if (nrestart and not failed) {
+        var volatile rexc = NULL;
+        try {
+          for (int j = first; j < T; j++) { if (RESTART(j)) { parent_prepare(thr[progs[j].restart_of], conc[j]); } }
+          for (int j = first; j < T; j++) { if (RESTART(j)) { call(thr[progs[j].restart_of], conc[j]->argref); } }
+          for (int j = first; j < T; j++) { if (RESTART(j)) { join(thr[progs[j].restart_of]); } }
+        } catch (e) { rexc = e; }
+        for (int j = first; j < T; j++) {
+          if (not RESTART(j)) { continue; }
+          if (rexc) { tbad(conc[j], "starting a finished Thread object again raised %s", c_str(rexc)); failed = true; }
+          else if (not conc[j]->done) { tbad(conc[j], "join returned before the thread function finished"); failed = true; }
+        }
       }
       if (not failed) {
         for (int i = first; i < T; i++) {
-          if (thr[i] and ((NORMAL(i) and not cfg_gcthr) or (MAINCL(i) and progs[i].clone_mode is 3))) { del_raw(thr[i]); }
+          if (thr[i] and ((NORMAL(i) and not managed[i]) or (MAINCL(i) and progs[i].clone_mode is 3))) { del_raw(thr[i]); }
           thr[i] = NULL;
         }
         for (int i = 0; i < T; i++) { check_ledger(conc[i], "concurrent"); }
       }
       #undef NORMAL
       #undef MAINCL
+      #undef RESTART
     }
 
     /* 3. report */
